@@ -205,6 +205,15 @@ def run_case(case):
             check_meta(sd, res, op[0], {"rules": rules, "history": done}, rng, net["names"])
             if res.viol:
                 break
+        if not res.viol and not big and any(op[0] in ("skip", "skiprem", "seeds", "min") for op in hist):
+            # the summary of whatever has been built and searched so far: no attractor twice (unless the network has
+            # a motif-avoidant attractor, which skip nodes may over-count), every label right
+            try:
+                W(lambda: sd.build(), nodes=len(sd))
+                _judge_summary(sd, ref, res, {"rules": rules, "history": done + [["build"]]}, bb, complete=False)
+                res.c("history_summaries_parsed")
+            except RuntimeError:
+                pass
         if not res.viol and not big:
             # subgraph / isomorphism between diagrams of the same network
             others = []
@@ -240,6 +249,76 @@ def run_case(case):
 HEADER = re.compile(r"^Succession Diagram with (\d+) nodes and depth (\d+)\.$")
 
 
+def _judge_summary(sd, ref, res, ctx, bb, complete=True):
+    """Parse summary() and judge it against the reference. complete=False (arbitrary history): attractors may be
+    missing (unexpanded parts), and may be listed twice only if the network has a motif-avoidant attractor."""
+    text = sd.summary()
+    ctx = dict(ctx, summary=text)
+    lines = text.split("\n")
+    m = HEADER.match(lines[0])
+    if not m or int(m.group(1)) != len(sd) or int(m.group(2)) != sd.depth():
+        res.v("summary-header", f"header {lines[0]!r} vs len {len(sd)} depth {sd.depth()}", ctx=ctx)
+    order = sorted(ref.names)
+    if lines[1] != "State order: " + ", ".join(order):
+        res.v("summary-state-order", lines[1], ctx=ctx)
+    mins = {tuple(sorted(ref.named(mn).items())) for mn in ref.min_traps()}
+    atts = ref.attractors()
+    maa = ref.has_maa()
+    count = {a: 0 for a in atts}
+    block = None
+    skip_block = False
+    for ln in lines[2:]:
+        if ln.startswith("minimal trap space ") or ln.startswith("motif avoidance in "):
+            label, sp_s = ln[:19], ln[19:]
+            if len(sp_s) != len(order) or any(ch not in "01*" for ch in sp_s):
+                res.v("summary-space-line", ln, ctx=ctx)
+                block = None
+                continue
+            sp = {v: int(ch) for v, ch in zip(order, sp_s) if ch != "*"}
+            is_min = tuple(sorted(sp.items())) in mins
+            if not complete:
+                # arbitrary history: a block printed for a node that is still unexpanded (queried as a stub) is outside
+                # the statement (the diagram cannot know yet whether the stub is minimal, and stubs legitimately repeat
+                # attractors found elsewhere): such blocks are skipped
+                nid = sd.find_node(sp)
+                if nid is None or not sd.node_data(nid)["expanded"]:
+                    block = None
+                    skip_block = True
+                    continue
+            skip_block = False
+            if (label == "minimal trap space ") != is_min:
+                res.v(
+                    "summary-label-wrong:" + ("minimal-labelled-maa" if is_min else "non-minimal-labelled-minimal"),
+                    f"block {ln!r}: the printed space is {'a' if is_min else 'not a'} minimal trap space",
+                    ctx=ctx,
+                )
+            if label != "minimal trap space ":
+                res.c("summary_maa_blocks")
+            block = sp
+        elif ln.startswith("." * 19):
+            st_s = ln[19:]
+            if block is None and skip_block:
+                continue
+            if block is None or len(st_s) != len(order) or any(ch not in "01" for ch in st_s):
+                res.v("summary-attractor-line", ln, ctx=ctx)
+                continue
+            st = {v: int(ch) for v, ch in zip(order, st_s)}
+            a = ref.attractor_of(ref.state_of(st))
+            if a is None:
+                res.v("summary-state-not-in-attractor", ln, ctx=ctx)
+                continue
+            if not ref.attractor_in_space(a, ref.sp(block)):
+                res.v("summary-attractor-outside-block-space", ln, ctx=ctx)
+            count[a] += 1
+            res.c("summary_attractors")
+    for a, k in count.items():
+        if k == 0 and complete:
+            res.v("summary-attractor-missing", f"attractor {ref.states(a)[:6]} is not listed", ctx=ctx)
+        elif k > 1 and (complete or not maa):
+            res.v("summary-attractor-listed-twice", f"attractor {ref.states(a)[:6]} is listed {k} times", ctx=ctx)
+    return atts
+
+
 def _build(case, res, bb):
     net = case["net"]
     res.hash = net_hash(net) + "build"
@@ -253,58 +332,9 @@ def _build(case, res, bb):
     except bb.Aborted as e:
         res.inconclusive = f"aborted: {e}"
         return res.out()
-    ctx = {"rules": rules, "summary": text}
     if list(sd.stub_ids()):
         res.c("builds_with_stubs")
-    lines = text.split("\n")
-    m = HEADER.match(lines[0])
-    if not m or int(m.group(1)) != len(sd) or int(m.group(2)) != sd.depth():
-        res.v("summary-header", f"header {lines[0]!r} vs len {len(sd)} depth {sd.depth()}", ctx=ctx)
-    order = sorted(ref.names)
-    if lines[1] != "State order: " + ", ".join(order):
-        res.v("summary-state-order", lines[1], ctx=ctx)
-    mins = {tuple(sorted(ref.named(mn).items())) for mn in ref.min_traps()}
-    atts = ref.attractors()
-    count = {a: 0 for a in atts}
-    i = 2
-    block = None
-    for ln in lines[2:]:
-        if ln.startswith("minimal trap space ") or ln.startswith("motif avoidance in "):
-            label, s = ln[:19], ln[19:]
-            if len(s) != len(order) or any(ch not in "01*" for ch in s):
-                res.v("summary-space-line", ln, ctx=ctx)
-                block = None
-                continue
-            sp = {v: int(ch) for v, ch in zip(order, s) if ch != "*"}
-            is_min = tuple(sorted(sp.items())) in mins
-            if (label == "minimal trap space ") != is_min:
-                res.v(
-                    "summary-label-wrong:" + ("minimal-labelled-maa" if is_min else "non-minimal-labelled-minimal"),
-                    f"block {ln!r}: the printed space is {'a' if is_min else 'not a'} minimal trap space",
-                    ctx=ctx,
-                )
-            if label != "minimal trap space ":
-                res.c("summary_maa_blocks")
-            block = sp
-        elif ln.startswith("." * 19):
-            s = ln[19:]
-            if block is None or len(s) != len(order) or any(ch not in "01" for ch in s):
-                res.v("summary-attractor-line", ln, ctx=ctx)
-                continue
-            st = {v: int(ch) for v, ch in zip(order, s)}
-            a = ref.attractor_of(ref.state_of(st))
-            if a is None:
-                res.v("summary-state-not-in-attractor", ln, ctx=ctx)
-                continue
-            if not ref.attractor_in_space(a, ref.sp(block)):
-                res.v("summary-attractor-outside-block-space", ln, ctx=ctx)
-            count[a] += 1
-            res.c("summary_attractors")
-    for a, k in count.items():
-        if k == 0:
-            res.v("summary-attractor-missing", f"attractor {ref.states(a)[:6]} is not listed", ctx=ctx)
-        elif k > 1:
-            res.v("summary-attractor-listed-twice", f"attractor {ref.states(a)[:6]} is listed {k} times", ctx=ctx)
+    atts = _judge_summary(sd, ref, res, {"rules": rules}, bb, complete=True)
     res.c("summaries_parsed")
     res.nontrivial = len(atts) >= 2
     if res.nontrivial and case["rs"] % 50 == 0:
